@@ -7,5 +7,5 @@ mkdir -p build evidence replays
 python3 lib/gen_all.py
 cd coq && coq_makefile -f _CoqProject -o Makefile && timeout 3000 make -j16 && cd ..
 cp /repo/go.sum harness/go.sum
-(cd harness && go build -tags verif -o ../build/vharness .)
+(cd harness && go build -tags verif -o ../build/vharness . && go build -o ../build/srcpin ./cmd/srcpin)
 echo setup ok
